@@ -342,17 +342,24 @@ impl RegretParams {
             strat.fill(0.0);
             strat[ind] = 1.0;
         } else {
-            let max = cum_reg
+            // NOTE shift by the extreme that makes every exponent non-positive, otherwise a
+            // negative weight overflows the exponential and produces nan
+            let extreme = if self.no_positive > 0.0 {
+                f64::max
+            } else {
+                f64::min
+            };
+            let shift = cum_reg
                 .into_floats_mut()
                 .map(|&mut v| v)
-                .reduce(f64::max)
+                .reduce(extreme)
                 .unwrap();
             let norm: f64 = cum_reg
                 .into_floats_mut()
-                .map(|&mut reg| ((reg - max) * self.no_positive).exp())
+                .map(|&mut reg| ((reg - shift) * self.no_positive).exp())
                 .sum();
             for (&mut reg, val) in cum_reg.into_floats_mut().zip(strat.iter_mut()) {
-                *val = ((reg - max) * self.no_positive).exp() / norm;
+                *val = ((reg - shift) * self.no_positive).exp() / norm;
             }
         }
     }
